@@ -99,3 +99,27 @@ Proof.
   - unfold lint_inner. rewrite Hna. reflexivity.
   - rewrite !projection by assumption. rewrite E. reflexivity.
 Qed.
+
+(* known finding of C04, as a theorem about the faithful model: a ban-unused-ignore report although that rule is absent *)
+Theorem unused_reported_when_rule_absent :
+  exists o f, mem BAN_UNUSED (o_rules o) = false /\
+    exists d, In d (lint_inner o id_oracle f [] NoCallback) /\ d_code d = BAN_UNUSED.
+Proof.
+  exists (mkOpts None None [[110; 111]] [[110; 111]]).
+  exists (mkFile [] [mkComment true (W_LINE ++ [32; 110; 111]) 0 22] []).
+  split; [reflexivity|]. eexists. split; [vm_compute; left; reflexivity | reflexivity].
+Qed.
+
+(* known finding of C05 (literal reading): a bare file directive that follows a coded one does not silence the file *)
+Theorem bare_after_coded_not_silenced :
+  exists o f rd c d,
+    In c (f_leading f) /\ parse_dir (file_word o) c = Some d /\ dir_codes d = [] /\
+    lint_inner o id_oracle f rd NoCallback <> [].
+Proof.
+  exists (mkOpts None None [] []).
+  exists (mkFile [mkComment true (W_FILE ++ [32; 120]) 0 10; mkComment true W_FILE 20 30] [] []).
+  exists [mkDiag [121] (Some (40, 41)) []].
+  exists (mkComment true W_FILE 20 30). eexists.
+  split; [right; left; reflexivity|]. split; [vm_compute; reflexivity|]. split; [reflexivity|].
+  vm_compute. discriminate.
+Qed.
